@@ -85,6 +85,8 @@ func call(fn, args string, in []byte) (res string) {
 			res = "ok:" + hx.Hex(avc.ConvertByteStreamToNaluSample(d))
 		case "s2b":
 			res = "ok:" + hx.Hex(avc.ConvertSampleToByteStream(d))
+		case "rt": // search only: stream -> sample -> stream
+			res = "ok:" + hx.Hex(avc.ConvertSampleToByteStream(avc.ConvertByteStreamToNaluSample(d)))
 		case "gnfs":
 			l, err := avc.GetNalusFromSample(d)
 			if err != nil {
@@ -156,19 +158,33 @@ func emit(fn, args string, in []byte) {
 }
 
 // ---------------------------------------------------------------- generators
-var avcTypes = []int{7, 8, 5, 1, 6, 9, 0, 2, 12, 31}
-var hevcTypes = []int{32, 33, 34, 19, 20, 21, 16, 23, 1, 0, 39, 35, 40, 63}
+// every boundary of the type tests in the library: AVC video <= 5, SPS 7, PPS 8; HEVC video <= 31,
+// RAP 16..23, IDR 19..20, VPS/SPS/PPS 32..34
+var avcTypes = []int{7, 8, 5, 1, 6, 9, 0, 2, 12, 31, 4, 10}
+var hevcTypes = []int{32, 33, 34, 19, 20, 21, 16, 23, 1, 0, 39, 35, 40, 63, 15, 17, 18, 22, 24, 31}
 
 // header byte with the given AVC / HEVC type (the other bits random)
-func hdrByte(r *hx.Rng, hevcMode bool) byte {
-	if r.Intn(8) == 0 {
+func hdrByte(r *hx.Rng, hevcMode bool) byte { return hdrByteP(r, hevcMode, false) }
+
+// parameter-set heavy palettes: duplicate / absent sets, non-video units between them, sets after the video unit
+var avcPsTypes = []int{7, 8, 7, 8, 6, 9, 5, 1}
+var hevcPsTypes = []int{32, 33, 34, 33, 34, 32, 39, 35, 19, 1, 33, 34}
+
+func hdrByteP(r *hx.Rng, hevcMode, ps bool) byte {
+	if r.Intn(8) == 0 && !ps {
 		return byte(r.U64())
 	}
 	if hevcMode {
 		t := hevcTypes[r.Intn(len(hevcTypes))]
+		if ps {
+			t = hevcPsTypes[r.Intn(len(hevcPsTypes))]
+		}
 		return byte(t<<1) | byte(r.Intn(2)) | byte(r.Intn(2))<<7
 	}
 	t := avcTypes[r.Intn(len(avcTypes))]
+	if ps {
+		t = avcPsTypes[r.Intn(len(avcPsTypes))]
+	}
 	return byte(t) | byte(r.Intn(8))<<5
 }
 
@@ -209,6 +225,7 @@ func genUnits(r *hx.Rng, hevcMode bool, maxUnits int) []unit {
 	k := r.Range(1, maxUnits)
 	us := make([]unit, k)
 	fourMode := r.Intn(4) // 0: all four, 1: all three, else mixed
+	psMode := r.Intn(3) == 0
 	for i := range us {
 		var n int
 		switch r.Intn(10) {
@@ -218,6 +235,12 @@ func genUnits(r *hx.Rng, hevcMode bool, maxUnits int) []unit {
 			n = 2
 		case 2:
 			n = r.Range(41, 120)
+		case 3:
+			if r.Intn(4) == 0 {
+				n = r.Range(250, 262) // second length byte becomes non-zero
+			} else {
+				n = r.Range(1, 40)
+			}
 		default:
 			n = r.Range(1, 40)
 		}
@@ -226,7 +249,7 @@ func genUnits(r *hx.Rng, hevcMode bool, maxUnits int) []unit {
 			alpha = []byte{0, 0, 0, 1, 1, 2, 3, 0x80, 0xff}
 		}
 		b := r.Bytes(n, alpha)
-		b[0] = hdrByte(r, hevcMode)
+		b[0] = hdrByteP(r, hevcMode, psMode)
 		b = escapeUnit(b)
 		four := fourMode == 0 || (fourMode >= 2 && r.Bool())
 		us[i] = unit{four, b}
@@ -498,6 +521,15 @@ func corr(seed uint64, n, plen int, bgs []int) {
 			emit("gnfs", "-", h)
 		}
 	}
+	// length fields with a non-zero second byte: samples only (the extracted walkers are linear in the input,
+	// the extracted scanner is quadratic; 64 KiB streams are left to the search)
+	kb := int(seed%29) + r.Intn(7)
+	for _, d := range []string{fmt.Sprintf("%d/4,3/4", 65536+kb), fmt.Sprintf("2/4,%d/3,1/4", 65535+kb)} {
+		for _, h := range []string{"0", "1"} {
+			_, hm, us := genBig(fmt.Sprintf("sa:%d:%s:%s", seed, h, d))
+			sampleFns(hm, r, buildSample(us))
+		}
+	}
 	out.Flush()
 }
 
@@ -535,6 +567,16 @@ func unitsData(us []unit) [][]byte {
 	return l
 }
 
+// bigWitness, when set, names the generated input ("gen:..." form understood by `c14 call`) in place of its hex.
+var bigWitness string
+
+func short(s string) string {
+	if len(s) > 160 {
+		return fmt.Sprintf("%s...(%d chars)", s[:160], len(s))
+	}
+	return s
+}
+
 func check(site, fn, args string, in []byte, want string, what string) {
 	evals++
 	got := call(fn, args, in)
@@ -543,8 +585,73 @@ func check(site, fn, args string, in []byte, want string, what string) {
 		if got == "panic" {
 			class = "panic"
 		}
-		fail(site, class, fmt.Sprintf("%s %s %s", fn, args, hx.Hex(in)), fmt.Sprintf("%s: got %s want %s", what, got, want))
+		w := hx.Hex(in)
+		if bigWitness != "" {
+			w = bigWitness
+			got, want = short(got), short(want)
+		}
+		fail(site, class, fmt.Sprintf("%s %s %s", fn, args, w), fmt.Sprintf("%s: got %s want %s", what, got, want))
 	}
+}
+
+// genBig builds units of prescribed sizes (far beyond what fits a hex witness) from a short description
+// "<sa|st>:<seed>:<hevc 0|1>:<size>/<4|3>,<size>/<4|3>,...": header byte from the type tables, then non-zero
+// bytes with isolated single zeros (emulation-free, last byte non-zero).
+func genBig(desc string) (form string, hm bool, us []unit) {
+	f := strings.Split(desc, ":")
+	form = f[0]
+	seed, _ := strconv.ParseUint(f[1], 10, 64)
+	hm = f[2] == "1"
+	r := hx.NewRng(seed ^ 0xB16)
+	for _, e := range strings.Split(f[3], ",") {
+		sf := strings.Split(e, "/")
+		n, _ := strconv.Atoi(sf[0])
+		b := make([]byte, n)
+		for i := range b {
+			b[i] = byte(r.Range(1, 255))
+		}
+		for k := 0; k < n/64; k++ {
+			if p := 2 * r.Intn(n/2+1); p > 0 && p < n-1 {
+				b[p] = 0 // even positions only: never two zeros in a row
+			}
+		}
+		b[0] = hdrByte(r, hm)
+		if n == 1 && b[0] == 0 {
+			b[0] = 0x80
+		}
+		us = append(us, unit{sf[1] == "4", b})
+	}
+	return
+}
+
+func bigInput(desc string) []byte {
+	form, _, us := genBig(desc)
+	if form == "sa" {
+		return buildSample(us)
+	}
+	return buildStream(us)
+}
+
+// checkUnits evaluates the property on one generating unit list: conversions, round trip, unit listing, type helpers.
+func checkUnits(r *hx.Rng, hm bool, us []unit) {
+	ns := unitsData(us)
+	st, sa, st4 := buildStream(us), buildSample(us), buildStream4(us)
+	check("avc.getStartCodePositions", "scan", "-", st, naiveScan(st), "start codes differ from byte-by-byte scan")
+	check("avc.ConvertByteStreamToNaluSample", "b2s", "-", st, "ok:"+hx.Hex(sa), "stream -> sample is not the length-prefixed unit list")
+	check("avc.ConvertSampleToByteStream", "s2b", "-", sa, "ok:"+hx.Hex(st4), "sample -> stream is not the units behind 4-byte start codes")
+	// round trip through the real functions
+	evals++
+	var rt []byte
+	if p := hx.Try(func() { rt = avc.ConvertSampleToByteStream(avc.ConvertByteStreamToNaluSample(hx.Exact(st))) }); p != "" || !bytes.Equal(rt, st4) {
+		w := hx.Hex(st)
+		if bigWitness != "" {
+			w = bigWitness
+		}
+		fail("avc.ConvertSampleToByteStream", "roundtrip", "rt - "+w, "stream -> sample -> stream differs from the units behind 4-byte start codes")
+	}
+	check("avc.GetNalusFromSample", "gnfs", "-", sa, "ok:"+fmtList(ns), "units of the sample")
+	check("avc.ExtractNalusFromByteStream", "enb", "-", st, "ok:"+fmtList(ns), "units of the stream")
+	searchHelpers(r, hm, ns, st, sa)
 }
 
 func search(seed uint64, n, plen int, bgs []int) {
@@ -561,22 +668,25 @@ func search(seed uint64, n, plen int, bgs []int) {
 	r := hx.NewRng(seed ^ 0xABCD)
 	for i := 0; i < n; i++ {
 		hm := r.Bool()
-		us := genUnits(r, hm, 7)
-		ns := unitsData(us)
-		st, sa, st4 := buildStream(us), buildSample(us), buildStream4(us)
-		check("avc.getStartCodePositions", "scan", "-", st, naiveScan(st), "start codes differ from byte-by-byte scan")
-		check("avc.ConvertByteStreamToNaluSample", "b2s", "-", st, "ok:"+hx.Hex(sa), "stream -> sample is not the length-prefixed unit list")
-		check("avc.ConvertSampleToByteStream", "s2b", "-", sa, "ok:"+hx.Hex(st4), "sample -> stream is not the units behind 4-byte start codes")
-		// round trip through the real functions
-		evals++
-		var rt []byte
-		if p := hx.Try(func() { rt = avc.ConvertSampleToByteStream(avc.ConvertByteStreamToNaluSample(hx.Exact(st))) }); p != "" || !bytes.Equal(rt, st4) {
-			fail("avc.ConvertSampleToByteStream", "roundtrip", hx.Hex(st), "stream -> sample -> stream differs from the units behind 4-byte start codes")
+		checkUnits(r, hm, genUnits(r, hm, 7))
+	}
+	// units of "any sizes": length fields with a non-zero second / first byte (64 KiB, 16 MiB), in-place and copying branch
+	k := int(seed%37) + r.Intn(5)
+	for _, d := range []string{
+		fmt.Sprintf("%d/4", 65536+k),
+		fmt.Sprintf("3/4,%d/4,2/4", 65535+k),
+		fmt.Sprintf("%d/3,5/4", 70000+k),
+		fmt.Sprintf("%d/4,255/3,256/3", 300+k),
+		fmt.Sprintf("%d/4,4/4", 1<<24+k),
+		fmt.Sprintf("2/3,%d/3,1/4", 1<<24+k),
+	} {
+		for _, h := range []string{"0", "1"} {
+			desc := fmt.Sprintf("%d:%s:%s", seed, h, d)
+			_, hm, us := genBig("st:" + desc)
+			bigWitness = "gen:" + desc
+			checkUnits(r, hm, us)
+			bigWitness = ""
 		}
-		check("avc.GetNalusFromSample", "gnfs", "-", sa, "ok:"+fmtList(ns), "units of the sample")
-		check("avc.ExtractNalusFromByteStream", "enb", "-", st, "ok:"+fmtList(ns), "units of the stream")
-		// type helpers
-		searchHelpers(r, hm, ns, st, sa)
 	}
 	fmt.Fprintf(out, "EVALS\t%d\n", evals)
 	out.Flush()
@@ -588,7 +698,19 @@ func main() {
 		os.Exit(2)
 	}
 	if os.Args[1] == "call" {
-		fmt.Println(call(os.Args[2], os.Args[3], hx.UnHex(os.Args[4])))
+		var in []byte
+		if g := os.Args[4]; strings.HasPrefix(g, "gen:") {
+			form := "st:"
+			switch fn := os.Args[2]; {
+			case fn == "s2b", fn == "gnfs", strings.HasPrefix(fn, "avc_") && !strings.HasSuffix(fn, "b") && fn != "avc_enot" && fn != "avc_gfv",
+				strings.HasPrefix(fn, "hevc_") && !strings.HasSuffix(fn, "b") && fn != "hevc_enot":
+				form = "sa:"
+			}
+			in = bigInput(form + g[4:])
+		} else {
+			in = hx.UnHex(g)
+		}
+		fmt.Println(short(call(os.Args[2], os.Args[3], in)))
 		return
 	}
 	fs := flag.NewFlagSet(os.Args[1], flag.ExitOnError)
